@@ -105,7 +105,7 @@ def worker(wid, queue, fmap, args, lock, outf):
                 outf.flush()
     finally:
         run(f"git -C /repo worktree remove --force {wt}", "/", 60)
-        run("find /verif/replays -name '*.json*' -newer /verif/tools/mutate.py -delete", "/", 60)
+        run("git -C /verif clean -fq replays", "/", 60)
 
 def main():
     ap = argparse.ArgumentParser()
